@@ -45,7 +45,7 @@ Proof. exact back_rejected_row. Qed.
 Print Assumptions C02_rejected_back.
 
 Theorem C02_rejected_mp11 : forall cf contained mc children fuel r x ev rn g,
-  g_plan g = [] -> r_guard x = true -> memb (r_id x) (g_val g) = false ->
+  g_plan g = [] -> r_guard x = true -> memb (r_id x) (g_val g) = false -> r_exitpt x = None ->
   mexec_row cf contained mc children fuel r x ev rn g =
     (Some HANDLED_GUARD_REJECT, rn, bump g [Cb (KGuard false) [] (r_id x) ev false (act rn)]).
 Proof. exact mp11_rejected_row. Qed.
